@@ -256,6 +256,29 @@ def strict_validate(trace, threads, timeout_s=3000):
     return {"accepted": False, "matched": int(m.group(2)), "lines": int(m.group(3)), "scenario": int(m.group(4)), "states": states}
 
 
+def split_trace(trace, max_bytes=900_000_000):
+    """TLC's JSON reader fails on files beyond 2 GB: a big trace is cut at scenario boundaries (`reset` lines) into
+    parts of at most max_bytes. Returns the list of part files (the trace itself if it is small enough)."""
+    if os.path.getsize(trace) <= max_bytes:
+        return [trace]
+    parts, out, size, k = [], None, 0, 0
+    with open(trace) as f:
+        for line in f:
+            if out is None or (size > max_bytes and '"k":"reset"' in line[:80]):
+                if out:
+                    out.close()
+                k += 1
+                pf = trace.replace(".ndjson", ".part%d.ndjson" % k)
+                parts.append(pf)
+                out = open(pf, "w")
+                size = 0
+            out.write(line)
+            size += len(line)
+    if out:
+        out.close()
+    return parts
+
+
 def load_known():
     p = os.path.join(ROOT, "known_findings.json")
     if not os.path.exists(p):
